@@ -134,6 +134,10 @@ def build_cells(tier, backend):
         cells.append((f"agg:AggDbl:{ek}", f"{seq}.Aggregate(0.5, lambda acc, v: acc + v)", "ev", ("floating", 3)))
         cells.append((f"agg:AggMul:{ek}", f"{seq}.Aggregate(1, lambda acc, v: acc * v)", "ev", summ))
         cells.append((f"agg:Count:{ek}", f"{seq}.Count()", "ev", ("integral", None)))
+        # the update lambda yields something WIDER than both the seed and the elements: the accumulator must hold it
+        cells.append((f"agg:WideDiv:{ek}", f"{seq}.Aggregate(0, lambda acc, v: acc + v / 2)", "ev", ("floating", 2)))
+        cells.append((f"agg:WideFactor:{ek}", f"{seq}.Aggregate(0, lambda acc, v: acc + v * 0.5)", "ev", ("floating", 2)))
+        cells.append((f"agg:WideMulDiv:{ek}", f"{seq}.Aggregate(1, lambda acc, v: acc * (v + 1) / 4)", "ev", ("floating", 2)))
         # folds through a conditional on the accumulator (capped sum, clamp, hand-written max with an int seed)
         cells.append((f"agg:CappedSum:{ek}", f"{seq}.Aggregate(0, lambda acc, v: (acc if acc < 1000 else 1000) + v)", "ev", ("any", None)))
         cells.append((f"agg:FloorSum:{ek}", f"{seq}.Aggregate(0, lambda acc, v: (acc if acc > 0 else 0) + v)", "ev", ("any", None)))
